@@ -137,12 +137,13 @@ type c17fn struct {
 	alias map[types.Object]ast.Expr // single-definition locals: n := len(p), l := len(s)
 	nass  map[types.Object]int      // number of assignments (incl. definition, ++, address taken)
 	lb    map[types.Object]int64    // lower bound of monotone variables
+	dec   map[types.Object]bool     // decremented somewhere (a write cursor that can backtrack)
 	hasLb map[types.Object]bool
 }
 
 func newC17fn(w *World, name string) *c17fn {
 	af := w.astFuncOf(modulePath, name)
-	x := &c17fn{w: w, af: af, info: af.pkg.TypesInfo, alias: map[types.Object]ast.Expr{}, nass: map[types.Object]int{}, lb: map[types.Object]int64{}, hasLb: map[types.Object]bool{}}
+	x := &c17fn{w: w, af: af, info: af.pkg.TypesInfo, alias: map[types.Object]ast.Expr{}, nass: map[types.Object]int{}, lb: map[types.Object]int64{}, hasLb: map[types.Object]bool{}, dec: map[types.Object]bool{}}
 	mono := map[types.Object]bool{}
 	bad := map[types.Object]bool{}
 	note := func(id *ast.Ident, rhs ast.Expr, kind token.Token) {
@@ -189,6 +190,9 @@ func newC17fn(w *World, name string) *c17fn {
 					return
 				}
 			}
+			bad[obj] = true
+		case token.DEC, token.SUB_ASSIGN:
+			x.dec[obj] = true
 			bad[obj] = true
 		default:
 			bad[obj] = true
@@ -789,7 +793,35 @@ func checkC17Index(w *World, r *Report) {
 			if _, isAlias := x.alias[obj]; isAlias {
 				return false
 			}
-			return !x.hasLb[obj]
+			if x.dec[obj] {
+				return true
+			}
+			// a parameter of the helper (bufApp's w)
+			if sig, ok := x.info.ObjectOf(x.af.decl.Name).Type().(*types.Signature); ok {
+				for i := 0; i < sig.Params().Len(); i++ {
+					if sig.Params().At(i) == obj {
+						return true
+					}
+				}
+			}
+			return false
+		}
+		// a cursor advanced by a step the analysis cannot bound (r += k with k not a constant) is neither: no verdict on its sites
+		unbounded := func(e ast.Expr) string {
+			name := ""
+			ast.Inspect(e, func(n ast.Node) bool {
+				if id, ok := n.(*ast.Ident); ok {
+					if obj, ok := x.info.ObjectOf(id).(*types.Var); ok && x.nass[obj] > 0 && !x.hasLb[obj] && !x.dec[obj] {
+						if _, isAlias := x.alias[obj]; !isAlias {
+							if bt, ok := obj.Type().Underlying().(*types.Basic); ok && bt.Info()&types.IsInteger != 0 {
+								name = obj.Name()
+							}
+						}
+					}
+				}
+				return true
+			})
+			return name
 		}
 		var sites []ast.Expr
 		ast.Inspect(x.af.decl.Body, func(n ast.Node) bool {
@@ -832,6 +864,16 @@ func checkC17Index(w *World, r *Report) {
 				if isWriteCursor(e) {
 					viaWrite = true
 				}
+			}
+			skip := false
+			for _, e := range idxs {
+				if v := unbounded(e); v != "" && !viaWrite {
+					r.Unrecognised("C17.2: %s at %s: cursor %s is assigned in a way the analysis cannot bound (not a constant, ++ or += constant)", exprStr(s), pos, v)
+					skip = true
+				}
+			}
+			if skip {
+				continue
 			}
 			if viaWrite {
 				undecided++
